@@ -197,7 +197,7 @@ func checkRepliesOwnInOrder(e *env, prop string, faultFree bool) {
 	var spans []span
 	e.eachCall(func(task int, spec CallSpec, rec *sched.CallRec, res *CallResult) {
 		if !rec.Done || res == nil {
-			out.violate(prop, "call-never-returned", "task %d call %d (%s %v) started at step %d never returned (run ended: %s)", task, rec.Index, spec.Kind, firstArgv(spec), rec.StartStep, out.Reason)
+			out.violate(prop, "call-never-returned", "task %d call %d (%s %v) started at step %d never returned (run ended: %s)", task, rec.Index, spec.Kind, truncArgv(firstArgv(spec)), rec.StartStep, out.Reason)
 			return
 		}
 		spans = append(spans, span{task, rec.StartStep, rec.EndStep})
@@ -216,7 +216,7 @@ func checkRepliesOwnInOrder(e *env, prop string, faultFree bool) {
 						continue
 					}
 					if strict {
-						out.violate(prop, "unexpected-error", "task %d call %d cmd %d %q: error %q without any fault, deadline or cancellation in the run", task, rec.Index, i, argv, r.Err)
+						out.violate(prop, "unexpected-error", "task %d call %d cmd %d %q: error %q without any fault, deadline or cancellation in the run", task, rec.Index, i, truncArgv(argv), r.Err)
 					} else {
 						out.notJudged("error-after-fault-or-cancellation")
 					}
@@ -228,7 +228,7 @@ func checkRepliesOwnInOrder(e *env, prop string, faultFree bool) {
 					continue
 				}
 				if want := normalize(exp, proto); !valEqual(want, r.V) {
-					out.violate(prop, "wrong-reply", "task %d call %d cmd %d %q: got %s want %s", task, rec.Index, i, argv, r.V.String(), want.String())
+					out.violate(prop, "wrong-reply", "task %d call %d cmd %d %q: got %s want %s", task, rec.Index, i, truncArgv(argv), truncStr(r.V.String(), 300), truncStr(want.String(), 300))
 				} else {
 					out.judged("reply-matches")
 				}
@@ -296,6 +296,13 @@ func checkRepliesOwnInOrder(e *env, prop string, faultFree bool) {
 	if pushes > 0 {
 		out.probe("push-frames-on-wire")
 	}
+}
+
+func truncStr(s string, n int) string {
+	if len(s) > n {
+		return s[:n] + "..."
+	}
+	return s
 }
 
 func minInt(a, b int) int {
